@@ -16,6 +16,8 @@ import random
 from .. import ref, gen, bridge, core
 
 PROP = "C15"
+LEVEL_TEXT = 'Every Tree.* and Node.* iterator and apply() is drained from every start node of every generated tree and compared with reference sequences computed recursively on the raw child lists, for four filter classes (none, bool, truthy non-bool, falsy non-False).'
+LEVEL_NOTE = 'Trusted: the recursive reference traversals in the module (a dozen lines each).'
 LEVEL = "exploration"
 TECHNIQUE = "runtime monitoring: trace recorder over all Tree/Node iterators and apply(), offline comparison with reference traversal sequences"
 RULE = ("tree = every shape n<=5 (+ single node, unary root/chains, wide polytomies) and random trees; x every start node x every iterator "
